@@ -8,7 +8,6 @@
 use std::collections::{BTreeMap, HashMap, HashSet};
 use std::ffi::CString;
 use std::io;
-use std::os::unix::ffi::OsStrExt;
 use std::os::unix::io::RawFd;
 use std::panic::{catch_unwind, AssertUnwindSafe};
 use std::sync::Arc;
@@ -943,29 +942,53 @@ fn enc(name: &[u8], ino: u64, off: u64, ty: u8, reclen: u16) -> Vec<u8> {
     v
 }
 
+/// a unit case for the byte-level helpers; for buffers built only from well-formed records the
+/// expected answer is computed here, independently, from the record list (`exp=` token)
 fn unit_case(r: &mut Prng) -> String {
     let n = r.below(6) as usize;
     let mut buf = Vec::new();
     let mut cookies = Vec::new();
+    let mut recs: Vec<(Vec<u8>, u64, Vec<u8>)> = Vec::new(); // (name, off, bytes)
+    let mut wellformed = true;
     for i in 0..n {
         let name: Vec<u8> = match r.below(6) { 0 => b".".to_vec(), 1 => b"..".to_vec(), _ => (0..1 + r.below(20)).map(|_| *r.pick(ASCII)).collect() };
         let good = ((19 + name.len() + 1 + 7) & !7) as u16;
-        let reclen = match r.below(14) { 0 => 0, 1 => 18, 2 => 19, 3 => good + 8, 4 => 4000, 5 => good - 1, _ => good };
+        let reclen = match r.below(20) { 0 => 0, 1 => 18, 2 => 19, 3 => good + 8, 4 => 4000, 5 => good - 1, _ => good };
+        if reclen != good {
+            wellformed = false;
+        }
         let off = match r.below(8) { 0 => 0, 1 => u64::MAX, 2 => (1u64 << 63) + i as u64, 3 if !cookies.is_empty() => *r.pick(&cookies), _ => r.below(50) + 1 };
         cookies.push(off);
-        buf.extend_from_slice(&enc(&name, i as u64 + 1, off, 8, reclen));
+        let bytes = enc(&name, i as u64 + 1, off, 8, reclen);
+        buf.extend_from_slice(&bytes);
+        recs.push((name, off, bytes));
     }
-    if r.chance(1, 6) && !buf.is_empty() {
+    if r.chance(1, 8) && !buf.is_empty() {
         let cut = r.below(buf.len() as u64) as usize;
         buf.truncate(cut);
+        wellformed = false;
     }
     match r.below(3) {
         0 => {
             let off = if !cookies.is_empty() && r.chance(3, 4) { *r.pick(&cookies) } else { r.below(60) };
-            format!("u=skip buf={} off={}", hex(&buf), off)
+            let exp = if wellformed {
+                match recs.iter().position(|x| x.1 == off) {
+                    Some(p) => format!(" exp=found:{}", hex(&recs[p + 1..].iter().flat_map(|x| x.2.clone()).collect::<Vec<u8>>())),
+                    None => " exp=notfound".to_string(),
+                }
+            } else {
+                String::new()
+            };
+            format!("u=skip buf={} off={}{}", hex(&buf), off, exp)
         }
-        1 => format!("u=last buf={}", hex(&buf)),
-        _ => format!("u=dots buf={}", hex(&buf)),
+        1 => {
+            let exp = if wellformed { match recs.last() { Some(x) => format!(" exp=some:{}", x.1), None => " exp=none".into() } } else { String::new() };
+            format!("u=last buf={}{}", hex(&buf), exp)
+        }
+        _ => {
+            let exp = if wellformed { format!(" exp={}", if recs.iter().all(|x| x.0 == b"." || x.0 == b"..") { "t" } else { "f" }) } else { String::new() };
+            format!("u=dots buf={}{}", hex(&buf), exp)
+        }
     }
 }
 
@@ -992,6 +1015,21 @@ fn unit_exec(line: &str) -> String {
             Ok(true) => "t".into(),
             Ok(false) => "f".into(),
         },
+    }
+}
+
+/// direct oracle for the byte-level helpers on well-formed buffers
+fn unit_oracle(out: &mut Out, line: &str, got: &str) {
+    let kv: HashMap<&str, &str> = line.split(' ').filter_map(|t| t.split_once('=')).collect();
+    if let Some(exp) = kv.get("exp") {
+        if *exp != got {
+            let which = match kv.get("u").copied().unwrap_or("") { "skip" => "skip_to_cookie", "last" => "last_cookie_in_buf", _ => "only_dot_entries" };
+            let v = serde_json::json!({"prop": "C16", "key": format!("C16:{}", which), "case": line,
+                "what": format!("{} on a well-formed getdents64 buffer answered {} instead of {}", which, got, exp)});
+            use std::io::Write;
+            writeln!(out.oracle, "{}", v).unwrap();
+            out.n_oracle += 1;
+        }
     }
 }
 
@@ -1038,6 +1076,7 @@ fn main() {
             }
             if line.starts_with("u=") {
                 let o = unit_exec(line);
+                unit_oracle(&mut out, line, &o);
                 out.case(line, &o);
                 continue;
             }
@@ -1083,6 +1122,7 @@ fn main() {
     for _ in 0..nunit {
         let line = unit_case(&mut r);
         let o = unit_exec(&line);
+        unit_oracle(&mut out, &line, &o);
         out.stat(&format!("unit:{}", &line[2..6]));
         out.class(&format!("unit|{}|{}", &line[2..6], o.split(':').next().unwrap_or("")));
         out.case(&line, &o);
